@@ -233,6 +233,9 @@ pub enum Op {
     InsWP(u8),
     /// insert of a value whose `Clone` panics (the concurrent cache clones values)
     InsCP(u8),
+    /// concurrent cache: a get during which `Clone` of the stored value panics (if the key
+    /// is found alive); the caller catches the panic
+    GetCP(u8),
 }
 
 impl Op {
@@ -255,6 +258,7 @@ impl Op {
             Op::IterInvAll => "iter-across-invalidate_all",
             Op::InsWP(_) => "insert-weigher-panics",
             Op::InsCP(_) => "insert-clone-panics",
+            Op::GetCP(_) => "get-clone-panics",
         }
     }
     pub fn text(&self) -> String {
@@ -273,6 +277,7 @@ impl Op {
             Op::InvIf(Pred::PanicAt1) => "invif(panic1)".into(),
             Op::InsWP(k) => format!("inswp({k})"),
             Op::InsCP(k) => format!("inscp({k})"),
+            Op::GetCP(k) => format!("getcp({k})"),
             Op::Adv(n) => format!("adv({n})"),
             Op::Sync => "sync".into(),
             Op::IterAdv(n) => format!("iteradv({n})"),
@@ -317,6 +322,7 @@ impl Op {
             "iterinvall" => Op::IterInvAll,
             "inswp" => Op::InsWP(n(0)),
             "inscp" => Op::InsCP(n(0)),
+            "getcp" => Op::GetCP(n(0)),
             _ => panic!("bad op {s}"),
         }
     }
@@ -501,7 +507,7 @@ impl Sut {
                         Obs::Unit
                     }
                 }
-                Op::InsCP(_) => panic!("harness: the unsync cache never clones a value"),
+                Op::InsCP(_) | Op::GetCP(_) => panic!("harness: the unsync cache never clones a value"),
                 Op::Adv(n) => {
                     clock.advance(Duration::from_millis(n as u64 * cfg.tick_ms));
                     Obs::Unit
@@ -550,6 +556,17 @@ impl Sut {
                         Obs::CbPanic(vec![])
                     } else {
                         Obs::Unit
+                    }
+                }
+                Op::GetCP(k) => {
+                    let mut got = None;
+                    CLONE_PANICS_NOW.store(true, std::sync::atomic::Ordering::SeqCst);
+                    let panicked = cb_guard(|| got = c.get(&K::probe(k)).map(|v| (v.id, v.w)));
+                    CLONE_PANICS_NOW.store(false, std::sync::atomic::Ordering::SeqCst);
+                    if panicked {
+                        Obs::CbPanic(vec![])
+                    } else {
+                        Obs::Val(got)
                     }
                 }
                 Op::Adv(n) => {
@@ -757,6 +774,7 @@ pub fn alphabet(cfg: &Cfg) -> Vec<Op> {
             }
             if s {
                 per_key(&mut a, Op::InsCP, n.min(2));
+                per_key(&mut a, Op::GetCP, n.min(2));
             } else {
                 a.push(Op::InvIf(Pred::PanicAt1));
                 a.push(Op::InvIf(Pred::Keys(0b001)));
